@@ -179,7 +179,19 @@ class FieldData:
         (self.__class__.STORAGE_KEY == "name" and \
         fieldname == self.__class__.NAME_FIELD):
          renaming_connected = True
-         self._gfa._unregister_line(self)
+    if renaming_connected:
+      # check the new identifier before the line leaves the registry
+      if value is not None and not gfapy.is_placeholder(value):
+        if self.vlevel >= 1:
+          gfapy.Field._validate_gfa_field(value,
+              self._field_datatype(fieldname), fieldname)
+        other = self._gfa.line(value)
+        if other is not None and other is not self:
+          raise gfapy.NotUniqueError(
+            "Cannot rename line to '{}': ".format(value)+
+            "the identifier is already in use\n"+
+            "Line: {}".format(other))
+      self._gfa._unregister_line(self)
     if value is None:
       if fieldname in self._data:
         self._data.pop(fieldname)
